@@ -53,10 +53,21 @@ func (cl Serializer) DecodeDnsResponse(msg *dns.Msg) (Response, error) {
 }
 
 // DecodeDnsResponse will take a DNS message and decode it into one of the DNS response object
-func (cl Serializer) DecodeDnsResponseWithParams(msg *dns.Msg, downstream enc.Encoder) (Response, error) {
+func (cl Serializer) DecodeDnsResponseWithParams(msg *dns.Msg, downstream enc.Encoder) (resp Response, err error) {
+	// Answers come from whatever is on the DNS path: records may be empty, shorter than their
+	// order tag or of unexpected shape. Never let that crash the client.
+	defer func() {
+		if e := recover(); e != nil {
+			resp, err = nil, errors.Errorf("Malformed response from server: %v", e)
+		}
+	}()
+
 	data := util.UnwrapDnsResponse(msg, cl.Domain)
+	if len(data) == 0 {
+		return nil, errors.Errorf("Invalid response from server: no data in the answer section")
+	}
 	for _, c := range Commands {
-		if c.IsOfType(data) {
+		if c.IsOfType(data) && c.NewResponse != nil {
 			req := c.NewResponse()
 			err := req.Decode(downstream, data)
 			return req, err
